@@ -107,7 +107,11 @@ def _unconstrain_node(node: Node) -> None:
         and "constraint" in signature(node.target).parameters
     ):
         logger.info("unconstraining node: %s", node)
-        node.kwargs = dict(node.kwargs, constraint=None)
+        idx = list(signature(node.target).parameters).index("constraint")
+        if len(node.args) > idx:  # constraint was passed positionally
+            node.args = (*node.args[:idx], None, *node.args[idx + 1 :])
+        else:
+            node.kwargs = dict(node.kwargs, constraint=None)
 
 
 def unit_scaling_backend(
